@@ -950,7 +950,7 @@ example : results 1 10 [⟨0, 1⟩, ⟨1, 2⟩, ⟨2, 1⟩] = [true, true, true]
 -- a non-monotone reading inside the window is still rejected
 example : results 2 10 [⟨5, 1⟩, ⟨0, 1⟩] = [true, false] := by decide
 -- the hypotheses of `ReplaySafe` are satisfiable on a real history of the model
-example : Spec.checkPair 2 10 ⟨0, 1, true, 0⟩ [⟨1, 2, true, 1⟩] ⟨5, 1, false, 5⟩ = some true := by decide
+example : Spec.checkPair false 2 10 ⟨0, 1, true, 0⟩ [⟨1, 2, true, 1⟩] ⟨5, 1, false, 5⟩ = some true := by decide
 -- two threads racing on the same nonce: exactly one is accepted (observed trace, internal steps inserted)
 example : ((observe true 2 10 [.call 0 7, .call 1 7, .readClock 0 0, .readClock 1 0, .acquire 1, .tick 3,
     .release 1, .acquire 0, .release 0, .ret 0 false, .ret 1 true]).map (fun s => s.hist.map (·.res))) =
